@@ -1,6 +1,7 @@
 package props
 
 import (
+	"bufio"
 	"bytes"
 	"encoding/json"
 	"errors"
@@ -9,6 +10,7 @@ import (
 	"sort"
 	"strings"
 	"testing"
+	"testing/iotest"
 
 	"github.com/hyperjumptech/grule-rule-engine/ast"
 	"pgregory.net/rapid"
@@ -251,6 +253,45 @@ func c12Run(cc *c12Case, sampleOffsets func(n int, boundaries []int) []int) ([]s
 			}
 		}
 	}
+	// --- (a') the same stream through readers that deliver it in pieces (sockets, pipes, buffered and
+	// decompressing readers do): one byte at a time, half of what is asked, through a small bufio buffer, and
+	// with the last bytes arriving together with io.EOF
+	if cc.What == "" || cc.What == "pieces" {
+		readers := []struct {
+			name string
+			mk   func() io.Reader
+		}{
+			{"one byte per Read", func() io.Reader { return iotest.OneByteReader(bytes.NewReader(B)) }},
+			{"half of the requested bytes per Read", func() io.Reader { return iotest.HalfReader(bytes.NewReader(B)) }},
+			{"a 16-byte bufio.Reader", func() io.Reader { return bufio.NewReaderSize(bytes.NewReader(B), 16) }},
+			{"a reader returning the last bytes together with io.EOF", func() io.Reader { return iotest.DataErrReader(bytes.NewReader(B)) }},
+		}
+		for ri, rd := range readers {
+			lp := ast.NewKnowledgeLibrary()
+			kbp, perr := func() (kb *ast.KnowledgeBase, err error) {
+				defer func() {
+					if r := recover(); r != nil {
+						err = fmt.Errorf("panic: %v", r)
+					}
+				}()
+				return lp.LoadKnowledgeBaseFromReader(rd.mk(), true)
+			}()
+			if perr != nil {
+				failing = fail("pieces", 0, 0, fmt.Sprintf("the complete stream does not load through %s: %v", rd.name, perr))
+				break
+			}
+			if d := metaDiff(origMeta, metaOf(kbp)); len(d) > 0 {
+				failing = fail("pieces", 0, 0, fmt.Sprintf("loaded through %s the knowledge base differs in metadata: %s", rd.name, strings.Join(d, "; ")))
+				break
+			}
+			if ri == 1 {
+				if m := c12Behaves(c, prep, lp, cc.States[:1], "knowledge base loaded through "+rd.name); len(m) > 0 {
+					failing = fail("pieces", 0, 0, m...)
+					break
+				}
+			}
+		}
+	}
 	// --- (d) overwrite=false on an existing entry
 	if cc.What == "" || cc.What == "overwrite" {
 		before := lib2.GetKnowledgeBase(obs.KBName, obs.KBVersion)
@@ -327,7 +368,7 @@ func c12Run(cc *c12Case, sampleOffsets func(n int, boundaries []int) []int) ([]s
 }
 
 func TestC12(t *testing.T) {
-	col := stats.New("C12", "generated rule sets (pairwise distinct saliences, write->read dependencies, descriptions, int32-limit saliences) with 2-3 fact states. (a) store -> load -> store -> load: name, version, rule names, descriptions, saliences equal; instances of the loaded and twice-loaded knowledge base validate against fresh single-rule truth and the reference replay, and fire the same sequence with the same final facts as the original; (b) truncation: the stream is cut at every field boundary (recorded from the loader's own Read calls on the complete stream) plus a drawn sample of other offsets - every offset in the thorough tier - and each prefix must make Load return an error or yield a knowledge base that passes the same comparison; (c) the store writer fails at every write-call index (all indices); (d) overwrite=false on an existing entry: error, entry pointer-identical and behaviourally unchanged; (e) clock family: small rule sets that stamp a fact with Now() are executed 2-3 times on one instance of the stored / loaded / twice-loaded knowledge base, with and without Forget(\"Now()\"): every call's stamp must not lie before that call started. Non-trivial: the rule set's run on the first fact state needs an invalidation (>= 2 cycles and a truth flip). Distinct by rule text + facts.",
+	col := stats.New("C12", "generated rule sets (pairwise distinct saliences, write->read dependencies, descriptions, int32-limit saliences) with 2-3 fact states. (a) store -> load -> store -> load (also with the stream delivered in pieces: one byte per Read, half reads, a 16-byte bufio buffer, data together with io.EOF): name, version, rule names, descriptions, saliences equal; instances of the loaded and twice-loaded knowledge base validate against fresh single-rule truth and the reference replay, and fire the same sequence with the same final facts as the original; (b) truncation: the stream is cut at every field boundary (recorded from the loader's own Read calls on the complete stream) plus a drawn sample of other offsets - every offset in the thorough tier - and each prefix must make Load return an error or yield a knowledge base that passes the same comparison; (c) the store writer fails at every write-call index (all indices); (d) overwrite=false on an existing entry: error, entry pointer-identical and behaviourally unchanged; (e) clock family: small rule sets that stamp a fact with Now() are executed 2-3 times on one instance of the stored / loaded / twice-loaded knowledge base, with and without Forget(\"Now()\"): every call's stamp must not lie before that call started. Non-trivial: the rule set's run on the first fact state needs an invalidation (>= 2 cycles and a truth flip). Distinct by rule text + facts.",
 		"crash points are enumerated per generated rule set; the rule sets themselves are sampled")
 	defer col.Flush()
 	rc := fullRuleCfg()
